@@ -122,24 +122,40 @@ pub fn run_guard(out_prefix: &str, shards: usize, seed: u64, scale: usize, poke:
         }
     }
     // packed searchers, every variant
-    for i in 0..(8 * scale.max(1)) {
-        let pats = {
+    // every fingerprint length (shortest pattern 1, 2, 3, 4, 5 bytes: Teddy's N = min(4, shortest)),
+    // then random lists; every haystack length up to 3 vectors + 8 for these
+    let all_lens: Vec<usize> = (0..=maxlen).collect();
+    for i in 0..(5 + 8 * scale.max(1)) {
+        let pats = if i < 5 {
+            let shortest = i + 1;
+            let letters = b"qwxzjkvy";
+            (0..4).map(|k| (0..shortest + (k % 3)).map(|j| letters[(k * 3 + j) % letters.len()]).collect()).collect()
+        } else {
             let pool = gen::POOLS[i % gen::POOLS.len()];
             let mut p = gen::random_pats_over(&mut rg, pool, 6, 5, false);
             if i % 3 == 0 { p.truncate(1); }
             p
         };
+        let lens = if i < 5 { &all_lens } else { &lens };
         for mk in ["lf", "ll"] {
             for variant in crate::packed::VARIANTS {
                 let s = match crate::packed::build(&pats, mk, variant) { Some(s) => s, None => continue };
                 let c = Ctx::new(&pats, mk, "packed");
                 shard += 1;
                 let cl = out.put(shard, &json!({"ev":"ctx","ctx":c,"built":true,"err":"","kind":variant,"pf":"","pfi":{"variant":"none","bytes":[]}}));
-                for &len in &lens {
+                for &len in lens.iter() {
                     for side in ["right", "left"] {
-                        let mut data: Vec<u8> = if rg.gen_bool(0.5) { gen::random_hay(&mut rg, &pats, false, len) } else { (0..len).map(|_| rg.gen()).collect() };
+                        // contents: planted occurrences / random bytes / nothing that matches at all
+                        // (the search then runs to the very last window)
+                        let kinds: Vec<usize> = if i < 5 { vec![0, 1, 2] } else { vec![(len + if side == "right" { 0 } else { 1 }) % 3] };
+                        for kind in kinds {
+                        let mut data: Vec<u8> = match kind {
+                            0 => gen::random_hay(&mut rg, &pats, false, len),
+                            1 => (0..len).map(|_| rg.gen()).collect(),
+                            _ => vec![b'.'; len],
+                        };
                         data.resize(len, 0x00);
-                        if len > 0 {
+                        if len > 0 && kind != 2 {
                             let p = &pats[rg.gen_range(0..pats.len())];
                             let k = p.len().min(len);
                             let k = if k > 1 && rg.gen_bool(0.5) { k - 1 } else { k };
@@ -158,6 +174,7 @@ pub fn run_guard(out_prefix: &str, shards: usize, seed: u64, scale: usize, poke:
                         }
                         out.put(shard, &json!({"ev":"multi","c":cl,"hay":data,"s":0,"e":len,"calls":cs}));
                         n += 1;
+                        }
                     }
                 }
             }
@@ -270,6 +287,81 @@ pub fn run_threads(out_prefix: &str, shards: usize, seed: u64, scale: usize) -> 
             out.put(i, &json!({"ev":"multi","c":cl,"hay":h,"s":0,"e":h.len(),"thread":-1,
                 "calls":[["find", false, false, "ok", om2v(&m), 0],["iter", false, false, "ok", it, 0]]}));
             nev += 2;
+        }
+    }
+    // stream searches have scratch state of their own (the roll buffer): what one stream search
+    // leaves behind on a thread must not influence the next one, whichever searcher runs it.
+    // Searchers with longest patterns 1..6 and roll-buffer capacities 2..9 (hook) take turns on
+    // the same threads, so that a search often follows one whose buffer was exactly as long as
+    // its own longest pattern / its own capacity.
+    for round in 0..(2 * scale) {
+        let base = 100 + round;
+        let mut acs = vec![];
+        for l in 1..=6usize {
+            let mut pats: Pats = vec![(0..l).map(|j| b"abc"[(j + round) % 3]).collect()];
+            pats.push(vec![b"abc"[(l + round) % 3]]);
+            if l >= 3 { pats.push(pats[0][1..l - 1].to_vec()); }
+            let pats: Pats = pats.into_iter().filter(|p| !p.is_empty()).collect();
+            let mut c = Ctx::new(&pats, "std", ["top-auto", "top-nc", "top-c", "top-dfa"][l % 4]);
+            c.sk = "unanchored";
+            let ac = std::sync::Arc::new(build_top(&c).expect("build"));
+            let cl = out.put(base, &json!({"ev":"ctx","ctx":c,"built":true,"err":"","kind":kind_name(ac.kind()),"pf":"",
+                "pfi":{"variant":"none","bytes":[]},"threads":4}));
+            nctx += 1;
+            acs.push((ac, cl, pats, l));
+        }
+        let hays: Vec<Vec<u8>> = (0..12).map(|k| {
+            let n = 20 + 3 * k;
+            (0..n).map(|_| b"abc_"[rg.gen_range(0..4)]).collect()
+        }).collect();
+        let mut handles = vec![];
+        for t in 0..4usize {
+            let acs: Vec<(std::sync::Arc<AhoCorasick>, usize, Pats, usize)> = acs.iter().map(|(a, cl, p, l)| (a.clone(), *cl, p.clone(), *l)).collect();
+            let hays = hays.clone();
+            let mut trg = gen::rng(seed, 0x7412_9000 + (round * 8 + t) as u64);
+            handles.push(std::thread::spawn(move || {
+                let mut evs: Vec<Value> = vec![];
+                for seq in 0..60usize {
+                    let (ac, cl, pats, l) = &acs[trg.gen_range(0..acs.len())];
+                    let h = &hays[trg.gen_range(0..hays.len())];
+                    // capacities from the longest pattern + 1 upwards; 0 = the default capacity
+                    let cap = if trg.gen_range(0..8) == 0 { 0 } else { l + 1 + trg.gen_range(0..4) };
+                    aho_corasick::verif::set_buffer_capacity(if cap == 0 { None } else { Some(cap) });
+                    let sizes = [1usize, 2, 3, 5, 64];
+                    let step = sizes[trg.gen_range(0..sizes.len())];
+                    struct Chunked<'a> { d: &'a [u8], step: usize }
+                    impl<'a> std::io::Read for Chunked<'a> {
+                        fn read(&mut self, buf: &mut [u8]) -> std::io::Result<usize> {
+                            let n = self.step.min(buf.len()).min(self.d.len());
+                            buf[..n].copy_from_slice(&self.d[..n]);
+                            self.d = &self.d[n..];
+                            Ok(n)
+                        }
+                    }
+                    let g = guarded(|| {
+                        let mut v: Vec<Value> = vec![];
+                        for item in ac.stream_find_iter(Chunked { d: h, step }) {
+                            match item { Ok(m) => v.push(m2v(&m)), Err(e) => return Err(e.to_string()) }
+                        }
+                        Ok(v)
+                    });
+                    let (o, res) = match g { Ok(Ok(v)) => ("ok", json!(v)), Ok(Err(e)) => ("err", json!(e)), Err(p) => ("panic", json!(p)) };
+                    let rep: Vec<Vec<u8>> = (0..pats.len()).map(|k| vec![b'<', b'0' + k as u8, b'>']).collect();
+                    let g2 = guarded(|| { let mut w = vec![]; ac.try_stream_replace_all(Chunked { d: h, step }, &mut w, &rep).map(|_| w).map_err(|e| e.to_string()) });
+                    let (o2, res2) = match g2 { Ok(Ok(v)) => ("ok", json!(v)), Ok(Err(e)) => ("err", json!(e)), Err(p) => ("panic", json!(p)) };
+                    aho_corasick::verif::set_buffer_capacity(None);
+                    evs.push(json!({"ev":"multi","c":cl,"hay":h,"s":0,"e":h.len(),"thread":t,"cap":cap,"step":step,
+                        "calls":[["iter", false, false, o, res, seq],
+                                 ["replace", false, false, o2, res2, {"var":"stream_all_bytes","R":rep,"stop":0,"str":false}]]}));
+                }
+                evs
+            }));
+        }
+        for h in handles {
+            for ev in h.join().expect("thread") {
+                out.put(base, &ev);
+                nev += 2;
+            }
         }
     }
     out.finish();
